@@ -48,6 +48,17 @@ def handle : Handler := fun op args impl =>
       if c == "sample" && !ownsData fns r n then some ⟨"shared=1", "na"⟩ else
       some ⟨if ownsData fns r n then good else "shared=1",
             verdictOf (impl == good || impl == "err") "copy-shares-data-with-original"⟩
+  | "aliasappend", _ :: _ :: c :: _ =>
+    -- the derived alignment is grown in place (every row appended to): rows must read row ++ row and the source
+    -- must be unchanged - what "owns its data" means for an appending mutation (spare capacity included)
+    match copyRecv.find? (·.1 == c) with
+    | none => some ⟨"bad-op", "na"⟩
+    | some (_, r, n) =>
+      let good := "append-ok=1 orig-unchanged=1"
+      if impl == "not-an-alignment" then some ⟨impl, "na"⟩ else
+      if c == "sample" then some ⟨"shared=1", "na"⟩ else
+      some ⟨if ownsData fns r n then good else "shared=1",
+            verdictOf (impl == good || impl == "err") "appending-to-a-copy-corrupts-its-rows-or-the-original"⟩
   | _, _ => none
 
 end Gv.Oracle.PureOps
